@@ -527,10 +527,151 @@ def rule_r4_keys(ctx: Ctx) -> None:
     approx_keys.rule(ctx, "C08.R4", ["_serializable", "_data_type_builder"], "two different base offset sets may compare equal (min, max and a few residues): offsets looked up by equality belong to another base", "pydsdl/_serializable/_composite.py", roots=["iterate_fields_with_offsets", "enumerate_elements_with_offsets", "resolve_top_level_identifier", "_attribute"], min_reached=15)
 
 
+def rule_r6_concrete(ctx: Ctx) -> None:
+    """R1 / R2 compare the iterators with the layout model over abstract fields.  Here concrete types are built by the real
+    constructors over the real length-set algebra (all evaluated from the source) and the iterators are asked for several
+    concrete base sets, repeatedly, with what the public accessors returned modified by the caller in between: the positions
+    are those of the wire format on every call."""
+    import itertools as _it
+
+    from ..absint import APath, ctor_hook, module_call_hook, path_hook
+    from .c01 import _quiet_hook
+    from .c11 import _version
+
+    ctx.rule("C08.R6", "concrete structures, unions, delimited types and fixed arrays built by evaluation of the constructors: iterate_fields_with_offsets / enumerate_elements_with_offsets yield every field / element once, in order, at exactly the wire positions, for aligned, unaligned and multi-valued base sets - on every call, also after the caller has modified every list the public accessors hand out [bounded grid, evaluated from the source]", min_instances=2)
+    SERP = SER
+    prim = ctx.cls(SERP + "_primitive.PrimitiveType")
+    bcls = ctx.cls("_bit_length_set._bit_length_set.BitLengthSet")
+
+    def hook_for(c: Any) -> Any:
+        return path_hook(ctor_hook(ctx, module_call_hook(ctx, c.module, [], [], results={"check_name": None}, record=["check_name"], base_hook=_quiet_hook)))
+
+    def mk(label: str, short: str, *a: Any, **k: Any) -> Any:
+        c = ctx.cls(SERP + short)
+        try:
+            return construct(ctx, c, *a, hook=hook_for(c), **k)
+        except Raised as r:
+            raise AnalysisError("%s cannot be constructed: %s" % (label, r.cls_name))
+        except Unfoldable as ex:
+            raise AnalysisError("%s cannot be constructed over the rule's arguments: %s" % (label, ex))
+
+    try:
+        TRU = Folder({}, ctx.repo, prim.module, prim).fold(ast.parse("PrimitiveType.CastMode.TRUNCATED", mode="eval").body)
+    except Unfoldable as ex:
+        raise AnalysisError("the cast modes cannot be evaluated: %s" % ex)
+
+    def pad(xs: Any, a: int) -> frozenset:
+        return frozenset(-(-x // a) * a for x in xs)
+
+    def rep(xs: Any, k: int) -> frozenset:
+        return frozenset(sum(c) for c in _it.combinations_with_replacement(sorted(xs), k))
+
+    serial = [0]
+    # a type is (object, Specification length set, alignment)
+    def uint(n: int) -> Tuple[Any, frozenset, int]:
+        return mk("uint%d" % n, "_primitive.UnsignedIntegerType", n, TRU), frozenset({n}), 1
+
+    def void(n: int) -> Tuple[Any, frozenset, int]:
+        return mk("void%d" % n, "_void.VoidType", n), frozenset({n}), 1
+
+    def varr(el: Tuple[Any, frozenset, int], cap: int) -> Tuple[Any, frozenset, int]:
+        o = mk("variable array", "_array.VariableLengthArrayType", el[0], cap)
+        w = next(w for w in (8, 16, 32, 64) if cap < 2**w)
+        return o, frozenset(w + x for k in range(cap + 1) for x in rep(el[1], k)), el[2]
+
+    def comp(fields: List[Tuple[str, Tuple[Any, frozenset, int]]], union: bool = False) -> Tuple[Any, frozenset, int, List[Tuple[str, Tuple[Any, frozenset, int]]]]:
+        serial[0] += 1
+        attrs = [mk("field", "_attribute.PaddingField", t[0]) if nm == "" else mk("field", "_attribute.Field", t[0], nm) for nm, t in fields]
+        o = mk("composite", "_composite.UnionType" if union else "_composite.StructureType", name="ns.T%d" % serial[0], version=_version(1, 0), attributes=attrs, deprecated=False, fixed_port_id=None, source_file_path=APath("/r/ns/T%d.1.0.dsdl" % serial[0]), has_parent_service=False, doc="")
+        if union:
+            sp = pad(frozenset(8 + x for _, t in fields for x in t[1]), 8)
+        else:
+            cur = frozenset({0})
+            for _, t in fields:
+                cur = frozenset(x + y for x in pad(cur, t[2]) for y in t[1])
+            sp = pad(cur, 8)
+        return o, sp, 8, fields
+
+    def positions(c: Any, base: frozenset, union: bool, header: int = 0) -> List[Tuple[str, frozenset]]:
+        cur = frozenset(header + x for x in pad(base, 8))
+        out = []
+        if union:
+            return [(nm, frozenset(8 + x for x in cur)) for nm, _ in c[3]]
+        for nm, t in c[3]:
+            cur = pad(cur, t[2])
+            out.append((nm, cur))
+            cur = frozenset(x + y for x in cur for y in t[1])
+        return out
+
+    u3, u8, u16, b1 = uint(3), uint(8), uint(16), uint(1)
+    inner = comp([("p", u8), ("q", varr(u8, 2))])
+    st = comp([("a", u3), ("", void(5)), ("b", u16), ("", void(8)), ("c", varr(u8, 2)), ("d", b1), ("e", inner[:3]), ("f", u3)])
+    un = comp([("first", u8), ("second", u16), ("third", inner[:3])], union=True)
+    dl = mk("delimited", "_composite.DelimitedType", st[0], 8 * ((max(st[1]) + 7) // 8) + 64)
+    arr = mk("fixed array", "_array.FixedLengthArrayType", inner[0], 3)
+    bases = [frozenset({0}), frozenset({8, 24}), frozenset({3}), frozenset({1, 9, 12}), frozenset({64, 65})]
+    MUTATE = """
+def mutate(x):
+    for got in (x.fields, x.attributes, x.constants, x.fields_except_padding, x.fields, x.attributes):
+        if got:
+            got.append(got[0])
+            got.reverse()
+            got.pop(0)
+        got.clear()
+"""
+    mut_body = ast.parse(MUTATE).body[0].body
+
+    def ask(obj: Any, base: frozenset, method: str) -> Any:
+        env = {"x": obj}
+        try:
+            b_ = Folder({}, ctx.repo, bcls.module, None, _quiet_hook).fold(ast.parse("BitLengthSet(%r)" % set(base), mode="eval").body)
+            env["base"] = b_
+            src = "[(f.name, set(o)) for f, o in x.iterate_fields_with_offsets(base)]" if method == "fields" else "[(i, set(o)) for i, o in x.enumerate_elements_with_offsets(base)]"
+            r = Folder(env, ctx.repo, prim.module, None, hook_for(prim)).fold(ast.parse(src, mode="eval").body)
+        except Raised as ex:
+            return ("raised", ex.cls_name)
+        except Unfoldable as ex:
+            raise AnalysisError("the offsets of a constructed type cannot be evaluated: %s" % ex)
+        return [(n_, frozenset(o_)) for n_, o_ in r]
+
+    def mutate(obj: Any) -> None:
+        try:
+            Evaluator({"x": obj}, ctx.repo, prim.module, None, hook_for(prim)).run(mut_body)
+        except (Raised, Unfoldable) as ex:
+            raise AnalysisError("the caller-side modification of the accessors' results cannot be evaluated: %s" % ex)
+
+    n = 0
+    for label, obj, c, union, header in (("structure {uint3, void5, uint16, void8, uint8[<=2], bool, Inner, uint3}", st[0], st, False, 0), ("union {uint8, uint16, Inner}", un[0], un, True, 0), ("delimited structure", dl, st, False, 32)):
+        bad = []
+        for round_ in ("first call", "second call", "after the caller modified the lists the accessors returned"):
+            if round_.startswith("after"):
+                mutate(obj)
+                if header:
+                    mutate(st[0])
+            for base in bases:
+                got = ask(obj, base, "fields")
+                want = positions(c, base, union, header)
+                n += 1
+                if got != want and len(bad) < 4:
+                    bad.append({"base": sorted(base), "when": round_, "found": [(a, sorted(b)) for a, b in got] if isinstance(got, list) else got, "wire positions": [(a, sorted(b)) for a, b in want]})
+        ctx.check(not bad, label, "iterate_fields_with_offsets for %d base sets x 3 rounds" % len(bases), "every field once, in order, at the set of bit positions at which it can start", "pydsdl/_serializable/_composite.py", bad[:3])
+    bad = []
+    for base in bases:
+        got = ask(arr, base, "elements")
+        start = pad(base, 8)
+        want = [(i, frozenset(x + y for x in start for y in rep(inner[1], i))) for i in range(3)]
+        n += 1
+        if got != want:
+            bad.append({"base": sorted(base), "found": [(a, sorted(b)) for a, b in got] if isinstance(got, list) else got, "wire positions": [(a, sorted(b)) for a, b in want]})
+    ctx.check(not bad, "Inner[3]", "enumerate_elements_with_offsets for %d base sets" % len(bases), "every element once, in order, at base (padded) + i element lengths", "pydsdl/_serializable/_array.py", bad[:3])
+    ctx.count(n)
+
+
 def run(ctx: Ctx) -> None:
     ctx.attempt(rule_r1_r2, ctx)
     ctx.attempt(rule_r3, ctx)
     ctx.attempt(rule_r4_keys, ctx)
     ctx.attempt(rule_r5_documents, ctx)
+    ctx.attempt(rule_r6_concrete, ctx)
     ctx.assume("the bit-length-set algebra is exact (C01); alignments are powers of two and the delimiter header is a multiple of the alignment (C02)")
     ctx.undecided("numerical equality of the offset sets with the encoder's positions (only the agreement of the traces / terms is decided)")
